@@ -235,6 +235,24 @@ func ZZH14cCompile() {
 		}
 	}
 	sym.Assert(sym.EqStr(r1.Code, r2.Code) && same, "compiler-object-reusable")
+	// ... and the names table the indices point into is the same as well
+	sameNames := len(r1.SourceMap.Names) == len(r2.SourceMap.Names) && len(r1.SourceMap.Names) == len(withNames(prettyMap.SourceMap))
+	if sameNames {
+		for i := range r1.SourceMap.Names {
+			sameNames = sameNames && sym.EqStr(r1.SourceMap.Names[i], r2.SourceMap.Names[i]) && sym.EqStr(r1.SourceMap.Names[i], prettyMap.SourceMap.Names[i])
+		}
+	}
+	sym.Assert(sameNames, "compiler-object-reusable-names")
+	// results of different compilations share no object: filling in the file name of one map (as callers do)
+	// does not show in another - also for a program without code, whose map has no segments
+	empty := &ast.Program{Statements: []ast.Statement{}}
+	e1 := compiler.New().WithSourceMap().Compile(empty)
+	e2 := compiler.New().WithSourceMap().Compile(empty)
+	if e1.SourceMap != nil && e2.SourceMap != nil && withMap.SourceMap != nil {
+		e1.SourceMap.File = "one.js"
+		withMap.SourceMap.File = "two.js"
+		sym.Assert(!sym.EqStr(e2.SourceMap.File, "one.js") && !sym.EqStr(prettyMap.SourceMap.File, "two.js") && !sym.EqStr(r1.SourceMap.File, "two.js"), "results-of-different-compilations-share-no-object")
+	}
 	// a compiler object configured twice behaves like one configured only the second way
 	rc := compiler.New().WithPrettyPrint(compiler.WithTabs(), compiler.WithSemi(false))
 	rc.WithPrettyPrint(compiler.WithSemi(semi))
@@ -247,6 +265,13 @@ func ZZH14cCompile() {
 		sym.Assert(concurrentCompilesAgree(prog, semi, pretty1, prettyMap.SourceMap.Mappings), "concurrent-compilations-equal-sequential")
 	}
 	sym.Cover("end")
+}
+
+func withNames(m *sourcemap.SourceMap) []string {
+	if m == nil {
+		return nil
+	}
+	return m.Names
 }
 
 func concurrentCompilesAgree(prog *ast.Program, semi bool, wantCode, wantMap string) bool {
